@@ -164,37 +164,46 @@ def metamorphic(ctx: Ctx) -> None:
               "class K{i}:\n    w{i} = str('')\n    def m(self, xs: list[int]) -> None:\n        v = int(0)\n        xs.append(v)\n        xs.append(v)",
               "for q{i} in (1,):\n    r{i} = int(0)\n    tmp{i} = a0\n    a0 = r{i}\n    r{i} = tmp{i}",
               "while a0:\n    a0 = int(0)\n    ws{i} = [1]\n    ws{i}.append(2)\n    ws{i}.append(3)\n    break"]
+    # expressions wrapped over several lines whose closing line is longer than the opening one, and lines with multi-byte text before the comment
+    stmts += ["v{i} = list(\n    [1, 2, 3, 4, 5, 6, 7, 8, 9, 10, 11, 12, 13, 14, 15, 16, 17, 18, 19, 20, 21, 22, 23, 24, 25])",
+              "w{i} = str(\n    '' '' '' '' '' '' '' '' '' '' '' '' '' '' '' '' '' '' '' '' '' '' '' '' '')",
+              "t{i} = str('\u65e5\u672c\u8a9e\u306e\u30bf\u30a4\u30c8\u30eb\u65e5\u672c\u8a9e\u306e\u30bf\u30a4\u30c8\u30eb')", "u{i} = int(0) if '\u00e9\u00e9\u00e9\u00e9\u00e9\u00e9\u00e9\u00e9' else 1"]
     specials = ["s{i} = 'x\x0cy'", "s{i} = 'x\x0by'", "s{i} = 'x\x1cy'", "s{i} = 'x y'", "s{i} = 'x\x85y'", "# comment \x0c here", "s{i} = '''a\nb'''"]
     with tempfile.TemporaryDirectory(prefix="c08m-") as td:
         # systematically: a program made of every block unit; a blanket comment on each of its lines in turn
         import io as _io0
         import tokenize as _tk0
-        blocks = [u.replace("{i}", str(k)) for k, u in enumerate(stmts) if "\n    " in u and not u.startswith(("e{i}", "f{i}", "h{i}"))]
-        phys0 = ("a0 = 1\n" + "\n".join(blocks)).split("\n")
-        base0 = Path(td) / "blocks_base.py"
-        base0.write_text("\n".join(phys0) + "\n")
-        diag0 = {(e.line, f"{e.prefix}{e.code}") for e in run_refurb(Settings(files=[str(base0)], quiet=True)) if not isinstance(e, str)}
-        ctx.count("block-program-diagnostics", len(diag0))
-        for ln in range(1, len(phys0) + 1):
+        blocks = [u.replace("{i}", str(k)) for k, u in enumerate(stmts) if "\n    " in u and not u.startswith(("e{i}", "f{i}", "h{i}", "v{i}", "w{i}"))]
+        wrapped = [u.replace("{i}", str(k)) for k, u in enumerate(stmts) if u.startswith(("e{i}", "f{i}", "h{i}", "v{i}", "w{i}", "t{i}", "u{i}"))]
+        for pname, units, comment in (("blocks", blocks, "  # noqa"), ("wrapped", wrapped, "  # noqa"), ("wrapped-listed", wrapped, None)):
+          phys0 = ("a0 = 1\n" + "\n".join(units)).split("\n")
+          base0 = Path(td) / f"{pname}_base.py"
+          base0.write_text("\n".join(phys0) + "\n")
+          diag0 = {(e.line, f"{e.prefix}{e.code}") for e in run_refurb(Settings(files=[str(base0)], quiet=True)) if not isinstance(e, str)}
+          ctx.count(f"{pname}-program-diagnostics", len(diag0))
+          for ln in range(1, len(phys0) + 1):
             cand = list(phys0)
-            cand[ln - 1] += "  # noqa"
+            here0 = sorted(c for l2, c in diag0 if l2 == ln)
+            if comment is None and not here0:
+                continue
+            cand[ln - 1] += comment if comment is not None else "  # noqa: " + ", ".join(here0)
             try:
                 toks = list(_tk0.generate_tokens(_io0.StringIO("\n".join(cand) + "\n").readline))
             except (_tk0.TokenError, SyntaxError, IndentationError):
                 continue
             if not any(t_.type == _tk0.COMMENT and t_.start[0] == ln for t_ in toks):
                 continue
-            f0 = Path(td) / f"blocks_{ln}.py"
+            f0 = Path(td) / f"{pname}_{ln}.py"
             f0.write_text("\n".join(cand) + "\n")
             got0 = {(e.line, f"{e.prefix}{e.code}") for e in run_refurb(Settings(files=[str(f0)], quiet=True)) if not isinstance(e, str)}
             want0 = {(l2, c) for l2, c in diag0 if l2 != ln}
-            ctx.case(("blocks-line", ln), nontrivial=True)
+            ctx.case((pname + "-line", ln), nontrivial=True)
             ctx.count("blanket-comment-on-each-line-of-the-block-program")
             if got0 != want0:
                 ctx.report("noqa:metamorphic:other-line-affected" if any(l2 != ln for l2, _ in want0 - got0) else "noqa:metamorphic:any-line",
-                           f"a blanket `# noqa` on line {ln} (`{phys0[ln - 1].strip()[:50]}`): the report lost {sorted(want0 - got0)} and kept {sorted(got0 - want0)} unexpectedly",
+                           f"`{cand[ln - 1].strip()[-40:]}` on line {ln} of the {pname} program (`{phys0[ln - 1].strip()[:50]}`): the report lost {sorted(want0 - got0)} and kept {sorted(got0 - want0)} unexpectedly",
                            {"program": "\n".join(cand) + "\n", "comment_on_line": ln, "expected": sorted(want0), "got": sorted(got0), "without_the_comment": sorted(diag0)})
-        for t in range(ctx.budget(12, 150)):
+        for t in range(ctx.budget(8, 150)):
             lines = ["a0 = 1"]
             for i in range(1, rng.randrange(4, 10)):
                 lines.append(rng.choice(stmts + (specials if rng.random() < 0.5 else [])).replace("{i}", str(i)))
@@ -246,7 +255,7 @@ def metamorphic(ctx: Ctx) -> None:
             import io as _io
             import tokenize as _tk
             phys = "\n".join(lines).split("\n")
-            for ln in rng.sample(range(1, len(phys) + 1), min(len(phys), rng.choice([1, 2, 3]))):
+            for ln in rng.sample(range(1, len(phys) + 1), min(len(phys), rng.choice([1, 2]))):
                 codes_here = sorted(c for l2, c in diag if l2 == ln)
                 style = rng.random()
                 listed = rng.sample(codes_here, rng.randrange(1, len(codes_here) + 1)) if codes_here and style >= 0.5 else None
